@@ -179,14 +179,18 @@ class ProtoExporter:
 
         # Two different `ExternalModule`s under one qualified name cannot both be declared.
         # Like for same-named `Module`s, fail rather than export a package with a doubly defined name.
+        # Two objects which describe the very same external module (e.g. a PDK's device, once as the PDK package exposes it
+        # and once as its compiler looks it up) are that one module.
+        pmod = export_external_module(emod)
         qname = (emod.domain or "", emod.name)
         if qname in self.ext_modules_by_name:
-            msg = f"Cannot serialize ExternalModule {emod} due to conflicting name with {self.ext_modules_by_name[qname]}."
+            other = self.ext_modules_by_name[qname]
+            if self.ext_modules[id(other)] == pmod:
+                self.ext_modules[id(emod)] = self.ext_modules[id(other)]
+                return self.ext_modules[id(emod)]
+            msg = f"Cannot serialize ExternalModule {emod} due to conflicting name with {other}."
             raise RuntimeError(msg)
         self.ext_modules_by_name[qname] = emod
-
-        # ...
-        pmod = export_external_module(emod)
 
         # Store references to the result, and return it
         self.ext_modules[id(emod)] = pmod
